@@ -795,8 +795,11 @@ def check(tier: str) -> int:
         "documented scope: a NATIVE Task.cancel() landing inside Condition.wait()'s shielded re-acquire makes wait() raise without the lock and drops the notification; the C11 theorems carry the hypothesis `clean` (no such op) and the monitors exempt exactly these histories (AnyIO cancellation cannot do this: shield)",
     ]
     t_start = time.time()
+    phases = {}
     proofs_ok = core.proof_stage(rep, "props/C11.v")
+    phases["proof_stage"] = round(time.time() - t_start, 1)
     exe = core.build_driver("eventcond", "EventCond")
+    phases["build_driver"] = round(time.time() - t_start, 1)
 
     rng = random.Random(core.seed())
     runs = load_corpus()
@@ -819,6 +822,7 @@ def check(tier: str) -> int:
     n_ex = len(ex)
     runs += ex
 
+    phases["generate_and_run_impl"] = round(time.time() - t_start, 1)
     cases = [r.case() for r in runs]
     expected = [r.outs for r in runs]
     model_outs = core.run_driver(exe, cases)
@@ -834,11 +838,13 @@ def check(tier: str) -> int:
     monitor_hits = [(r, msg) for r in runs for msg in r.mon]
 
     # kernel-checked sample (always includes the corpus)
-    sample_n = 60 if quick else 400
-    idx = list(range(n_corpus, len(cases)))
+    sample_n = 40 if quick else 400
+    idx = [i for i in range(n_corpus, len(cases)) if quick is False or len(cases[i]) <= 3 + 3 * 30]
     rng.shuffle(idx)
     idx = list(range(n_corpus)) + idx[:sample_n]
+    phases["model_driver"] = round(time.time() - t_start, 1)
     vm_ok, vm_log = core.coq_eval_cases("c11", "EventCond", [cases[i] for i in idx], [expected[i] for i in idx])
+    phases["vm_compute_sample"] = round(time.time() - t_start, 1)
 
     # ---- decide ----
     reported = set()
@@ -907,7 +913,7 @@ def check(tier: str) -> int:
         "monitor_hits": len(monitor_hits),
         "samples": [{"machine": runs[i].machine, "ops": runs[i].readable()[:30], "outs": runs[i].outs[:50]}
                     for i in idx[n_corpus:n_corpus + 2]],
-        "phase_wall_s": round(time.time() - t_start, 1),
+        "phase_wall_s_cumulative": phases,
     })
     need = ["wait", "notify_some", "notify_none", "notify_zero", "notify_more_than_waiting", "notify_strict_subset",
             "three_waiters", "cancel_before_notify", "cancel_after_notify_same_cycle",
